@@ -24,10 +24,14 @@ def build_harness(config="plain", extra_ldflags=()):
     hv = h.hexdigest()
     if os.path.exists(out) and os.path.exists(stamp) and open(stamp).read() == hv:
         return out
-    cc = "clang" if config in ("asan", "tsan") else "gcc"
+    cc = "clang" if config in ("asan", "tsan", "fuzz") else "gcc"
     cflags = ["-O1", "-g", "-std=gnu11", "-Wall", "-Wno-unused-function", "-Wno-format-truncation", "-fno-strict-aliasing"]
     if config == "asan":
         cflags += ["-fsanitize=address,undefined", "-fno-sanitize-recover=undefined"]
+    if config == "fuzz":
+        cflags += ["-fsanitize=address", "-fno-omit-frame-pointer", "-DCS_LIBFUZZER"]
+    if config == "tsan":
+        cflags += ["-fsanitize=thread"]
     objs = []
     from concurrent.futures import ThreadPoolExecutor
     od = os.path.join(libdir, "hobj")
@@ -48,6 +52,12 @@ def build_harness(config="plain", extra_ldflags=()):
     with ThreadPoolExecutor(16) as ex:
         objs = [o for o in ex.map(cc1, srcs) if o]
     libargs = [os.path.join(libdir, "libsafec.a")] if config != "shared" else ["-L" + libdir, "-lsafec", "-Wl,-rpath," + libdir]
+    if config == "fuzz":
+        import glob as _g
+        rt = _g.glob("/usr/lib/llvm-14/lib/clang/*/lib/linux/libclang_rt.fuzzer_no_main-x86_64.a")
+        if not rt:
+            raise RuntimeError("libFuzzer runtime (libclang_rt.fuzzer_no_main) not found")
+        libargs = libargs + [rt[0], "-lstdc++"]
     cmd = [cc] + cflags + objs + libargs + ["-lffi", "-lpthread", "-lm", "-ldl", "-Wl,--wrap=malloc,--wrap=calloc,--wrap=realloc,--wrap=free,--wrap=ignore_handler_s", "-o", out] + list(extra_ldflags)
     r = subprocess.run(cmd, capture_output=True, text=True)
     if r.returncode != 0:
